@@ -126,6 +126,24 @@ func init() {
 	}
 }
 
+func init() {
+	specs["C05"] = &propSpec{
+		id:    "C05",
+		level: "fault_enumeration",
+		rule: "one evaluation = one asm.ParseString of a corpus module with a single naming fault, under one translation order; the faults are enumerated from llir/ll's own AST of the valid module: every reference site (global in initialisers, operands, callees, aliasees; local operand; named type anywhere; label in br/switch/indirectbr/invoke/callbr targets; phi predecessor; comdat use; metadata id in attachments, tuples, DI fields and named metadata; blockaddress function and block; uselistorder_bb function and block) redirected to a fresh undefined identifier of the same sigil, and every named definition (type, comdat, global, alias/ifunc, function, metadata id, local value, label, parameter) duplicated; each faulted text is parsed under the canonical order and k seeded map-iteration orders; " +
+			"oracle: (nil module, non-nil error) and no panic. distinct_nontrivial counts distinct (module, site kind, offset) faults whose text is still accepted by the grammar",
+		simulated:              []string{"the stored input (one naming fault per run)", "Go map iteration order of the translator's indices (which lookup meets the dangling name first)"},
+		assumptions:            []string{"#N attribute-group uses are not faulted (documented exception); opaque type definitions, unnamed @N/%N definitions, named-metadata and attribute-group definitions are not duplicated (legitimately mergeable or a numbering matter)", "a faulted text that LLVM's own llvm-as also accepts is attributed to the injector, counted and never reported; llvm-as is consulted only for would-be 'accepted' violations", "error text is not inspected"},
+		exhaustiveWhenThorough: true,
+		procs:                  1,
+		plain:                  always,
+		shrinkTime:             45 * time.Second,
+		search: func(s *propSpec, b *build, a *agg) {
+			fanOut(a, b.plain, false, baseArgs(s, b), 0, numWorkers(), 1)
+		},
+	}
+}
+
 // selfTest: determinism of the simulator itself (see selftest.go for the
 // properties that have a scheduler); the default is a no-op success.
 func selfTest(spec *propSpec, b *build) int {
